@@ -11,8 +11,9 @@ From Teleport Require Model.Rvesting.
 Local Open Scope N_scope.
 
 Record tables := {
-  t_cs : list (bytes * (ctype * bool));       (* stored client state bytes -> (ClientType(), Validate() == nil) *)
-  t_cons : list (bytes * (ctype * bool));     (* stored consensus state bytes -> (ClientType(), ValidateBasic() == nil) *)
+  t_cs : list (bytes * (ctype * (ctype * bool)));
+      (* client state bytes -> (the light client package of the value, what the real ClientType() reports, Validate() == nil) *)
+  t_cons : list (bytes * (ctype * (ctype * bool)));   (* the same for consensus states (ValidateBasic) *)
   t_rel : list (bytes * relayer);
   t_tp : list (bytes * token_pair);
   t_sha : list (bytes * bytes);
@@ -42,11 +43,17 @@ Section WithTables.
   Variable T : tables.
 
   Definition o_cs_unmarshal (v : bytes) : option bytes := match blookup v (t_cs T) with Some _ => Some v | None => None end.
+  (** the four [ClientType()] methods of the client states and of the consensus states, transcribed: each reports
+      the client type of its own package (tendermint / bsc / eth / tss) *)
   Definition o_cs_type (v : bytes) : ctype := match blookup v (t_cs T) with Some (t, _) => t | None => TM end.
-  Definition o_cs_valid (v : bytes) : bool := match blookup v (t_cs T) with Some (_, b) => b | None => false end.
+  Definition o_cs_valid (v : bytes) : bool := match blookup v (t_cs T) with Some (_, (_, b)) => b | None => false end.
   Definition o_cons_unmarshal (v : bytes) : option bytes := match blookup v (t_cons T) with Some _ => Some v | None => None end.
   Definition o_cons_type (v : bytes) : ctype := match blookup v (t_cons T) with Some (t, _) => t | None => TM end.
-  Definition o_cons_valid (v : bytes) : bool := match blookup v (t_cons T) with Some (_, b) => b | None => false end.
+  Definition o_cons_valid (v : bytes) : bool := match blookup v (t_cons T) with Some (_, (_, b)) => b | None => false end.
+  (** a value whose real [ClientType()] differs from the transcription *)
+  Definition type_report_differs : bool :=
+    existsb (fun r => negb (ctype_eqb (fst (snd r)) (fst (snd (snd r))))) (t_cs T)
+    || existsb (fun r => negb (ctype_eqb (fst (snd r)) (fst (snd (snd r))))) (t_cons T).
   Definition o_rel_unmarshal (v : bytes) : option relayer := blookup v (t_rel T).
   Definition o_rel_marshal (r : relayer) : bytes := rlookup relayer_eqb r (t_rel T).
   Definition o_tp_unmarshal (v : bytes) : option token_pair := blookup v (t_tp T).
@@ -133,6 +140,7 @@ Definition flag (b : bool) (k : nat) : list nat := if b then [k] else [].
     34 [valid_state] of the pre-state vs the real Validate, 41 import outcome class, 42 xibc store after import,
     43 aggregate store after import, 44 parameters after import, 51/52/53 validate on the input genesis,
     54 import of the input genesis vs the dumped state, 55 its outcome class,
+    84 a client / consensus state value whose real ClientType() is not the client type of its own package,
     81 / 82 / 83 chain-name validator / IsHexAddress / ValidateDenom of the model vs the real function,
     71 / 72 the dumped xibc / aggregate store is outside [wf_xibc] / [wf_agg] (the theorems do not speak about it). *)
 Definition cmp_texts (c : gcase) : list nat :=
@@ -142,7 +150,7 @@ Definition cmp_texts (c : gcase) : list nat :=
 
 Definition cmp_case (c : gcase) : list nat :=
   let T := c_tab c in
-  cmp_texts c ++
+  cmp_texts c ++ flag (type_report_differs T) 84 ++
   (if c_has_input c then
      let g := c_input c in
      flag (negb (Nat.eqb (bclass (m_validate_xibc T g)) (fst (c_in_validate c)))) 51
